@@ -16,6 +16,8 @@ static fibre_eventq_t hq;
 static fibre_t yf;
 static struct { fibre_t f; uint32_t wake; } sf;
 static int eqdepth, period, npass, nisr, sleeper = 1;
+static int seqmark;          /* directed execution: interrupt-context calls run to completion one at a time */
+static int pass_ended;       /* the last step of context 0 returned from fibre_scheduler_next */
 static int eqroll, aqroll;   /* messages that went through the event queue / the atomic run queue before the scenario starts */
 static long times[32];
 static struct { int kind, arg; } iprog[VRT_MAXCTX];
@@ -110,8 +112,8 @@ static void reset(void)
 	vrt_region("eq_receivep", &hq.eventq.receivep, sizeof(hq.eventq.receivep), 0, 0);
 	vrt_region("eq_slot", evstore, eqdepth * sizeof(event_t), sizeof(event_t), 2);
 	vrt_region("taint", fibre_verif_taint_flags(), sizeof(unsigned int), 0, 1);
-	printf("{\"e\":\"Reset\",\"eqdepth\":%d,\"period\":%d,\"sleeper\":%d,\"eqstart\":%d,\"aqstart\":%d,\"main\":[", eqdepth, period, sleeper,
-	       eqroll % eqdepth, aqroll % 8);
+	printf("{\"e\":\"Reset\",\"eqdepth\":%d,\"period\":%d,\"sleeper\":%d,\"eqstart\":%d,\"aqstart\":%d,\"seq\":%d,\"main\":[", eqdepth, period, sleeper,
+	       eqroll % eqdepth, aqroll % 8, seqmark);
 	for (int k = 0; k < npass; k++) printf("%s%ld", k ? "," : "", times[k]);
 	printf("],\"isr\":[");
 	for (int i = 1; i <= nisr; i++) printf("%s{\"k\":\"%s\",\"a\":%d}", i > 1 ? "," : "", iprog[i].kind ? "event" : "run", iprog[i].arg);
@@ -144,7 +146,10 @@ static int step(int c)
 	printf("{\"e\":\"S\",\"c\":%d,\"op\":\"%s\",\"var\":\"%s\",\"na\":%d,\"calls\":[", c, op, var, natomic);
 	int first = 1;
 	for (int i = 0; i < n; i++)
-		if (ev[i].kind == 'C') { printf("%s{\"n\":\"%s\",\"r\":%ld}", first ? "" : ",", ev[i].op, ev[i].res); first = 0; }
+		if (ev[i].kind == 'C') {
+			printf("%s{\"n\":\"%s\",\"r\":%ld}", first ? "" : ",", ev[i].op, ev[i].res); first = 0;
+			if (c == 0 && !strcmp(ev[i].op, "self")) pass_ended = 1;
+		}
 	printf("],\"st\":{");
 	fibre_verif_snapshot_t s;
 	fibre_verif_snapshot(&s);
@@ -159,6 +164,40 @@ static int step(int c)
 	vrt_print_hb(stdout);
 	printf("}\n");
 	return r;
+}
+/* Full: the atomic run queue fills up (and overflows) between two passes of a main loop that has nothing else to do -
+ * a lone yielding fibre, usually no sleeper - and the requests are for fibres that are not otherwise runnable.  The
+ * interrupt-context calls run to completion one at a time; j of them before the main loop goes on, the rest after it. */
+static void full(long seed, int nexec)
+{
+	drv_srand(seed);
+	seqmark = 1;
+	for (int x = 0; x < nexec; x++) {
+		eqdepth = 12; period = 1 + drv_below(3); sleeper = drv_below(5) == 0;
+		eqroll = drv_below(2) ? 0 : (int)drv_below(700);
+		aqroll = drv_below(2) ? 0 : (int)drv_below(700);
+		npass = 4 + drv_below(8);
+		long t = 0;
+		for (int k = 0; k < npass; k++) { t += drv_below(4) == 0; times[k] = t; }
+		nisr = 8 + drv_below(4);
+		for (int i = 1; i <= nisr; i++) {
+			iprog[i].kind = drv_below(4) == 0;
+			iprog[i].arg = iprog[i].kind ? 10 + i : 1 + (int)drv_below(3);
+		}
+		int lead = 1 + drv_below(2), j = drv_below(4) ? 8 + drv_below(nisr - 7) : 5 + drv_below(3);
+		if (j > nisr) j = nisr;
+		reset();
+		for (int k = 0; k < lead && !vrt_finished(0); k++) {
+			pass_ended = 0;
+			for (int guard = 0; guard < 400 && !pass_ended && !vrt_finished(0); guard++) step(0);
+		}
+		for (int i = 1; i <= j; i++)
+			for (int guard = 0; guard < 100 && !vrt_finished(i); guard++) if (step(i) <= 0) break;
+		for (int guard = 0; guard < 3000 && !vrt_finished(0); guard++) step(0);
+		for (int i = j + 1; i <= nisr; i++)
+			for (int guard = 0; guard < 100 && !vrt_finished(i); guard++) if (step(i) <= 0) break;
+	}
+	seqmark = 0;
 }
 static void gen(long seed, int nexec, int irq)
 {
@@ -207,6 +246,7 @@ int main(void)
 			aqroll = c.ntok > a + 1 ? drv_arg(&c, a++) : 0;
 			reset();
 		} else if (drv_is(&c, "S")) step(drv_arg(&c, 0));
+		else if (drv_is(&c, "Full")) full(drv_arg(&c, 0), drv_arg(&c, 1));
 		else if (drv_is(&c, "Gen")) gen(drv_arg(&c, 0), drv_arg(&c, 1), drv_arg(&c, 2));
 		else { fprintf(stderr, "irq_drv: unknown command %s\n", c.tok[0]); return 3; }
 	}
